@@ -147,7 +147,16 @@ def rule_epoch_on_change(cx, fb):
     # removal
     rem = [f for f in pico if any(term_calls(t, r"dashmap::DashMap::<K, V, S>::remove$") for t in f.calls())
            and re.search(r"source", f.id)]
-    cx.floor("R01.epoch-on-change source removers", len(rem), 1)
+    # alternative shape: the slot is emptied with Option::take and the key kept
+    rem_take = [f for f in pico if f not in rem and re.search(r"remove_source", f.id) and any(
+        term_calls(t, r"option::Option::<T>::take$") and "SourceNode" in " ".join(t.j.get("atys", [])) for t in f.calls())]
+    cx.floor("R01.epoch-on-change source removers", len(rem) + len(rem_take), 1)
+    for f in rem_take:
+        incr = blocks_calling(f, r"pico::epoch::Epoch::increment$")
+        takes = [t for t in f.calls() if term_calls(t, r"option::Option::<T>::take$")]
+        ok = bool(incr) and any(b in reachable_from(f, t.bb) or any(f.dominates(b, t.bb) for b in incr) for t in takes for b in incr)
+        cx.ob("R01.epoch-on-change", f.id + "|remove-without-increment", ok,
+              "a source that existed is removed without advancing the epoch", f.loc())
     for f in rem:
         incr = blocks_calling(f, r"pico::epoch::Epoch::increment$")
         for t in f.calls():
